@@ -80,6 +80,10 @@ def random_phases(seed, n):
                 store.append(o)
                 uid += 2
             objects.append(pl.mk_pobj(gk, r.choice([0, 1]) if ons else 1, i, body=r.choice([1, 2]), cp=r.choice([0, 0, 1, 2])))
+            if r.random() < 0.15:
+                # the template presets metadata Package Operator owns (revision annotation, cache label, package label):
+                # what is applied must not depend on it (the model has no such field)
+                objects[-1]["noise"] = r.choice([1, 1, 2, 3] + ([4, 5, 7] if owner.get("pkg") else []))
         sc = {"flavor": flavor, "force": r.random() < 0.1, "owner": owner, "prev": prev, "store": store,
               "next_rv": 50, "next_uid": 60, "op": "reconcile", "objects": objects}
         if r.random() < 0.25 and store:
@@ -184,6 +188,59 @@ def fault_stage(run, pid, tier, seed, results, judge, identity, only=None):
     run.cov["fault_stage"] = {"evaluations": nfault, "reads_faulted": len(reads), "writes_faulted": len(writes),
                               "judged": "monitor only (the model has no faults); failed-without-effect requests dropped, lost responses count as writes"}
     run.cov["evaluations"] = run.cov.get("evaluations", 0) + nfault
+
+
+def dryrun_fault_stage(run, pid, tier, seed, results, identity):
+    """C11 under API faults: the dry-run request of one object of a rollout fails (error before effect, or response
+    lost).  The dry run then has not accepted the object, so the pass must not write anything.  Judged by m11f on the
+    scenario in which that object is marked as rejected by the dry run (the model's way of saying "not accepted")."""
+    rng = random.Random(seed * 104729 + 5)
+    cands = []
+    for sc, obs, r in results:
+        if sc.get("between") or sc["op"] != "reconcile" or not obs.get("requests"):
+            continue
+        for i, q in enumerate(obs["requests"]):
+            if " dry " in q + " ":
+                for kind in ("err", "lost"):
+                    cands.append((sc, i, kind, obs["req_keys"][i]))
+    rng.shuffle(cands)
+    cands = cands[: 300 if tier == "quick" else 4000]
+    scs = [dict(sc, faults=[{"req": i, "kind": kind}]) for sc, i, kind, _ in cands]
+    outs = vlib.run_harness("phase", scs)
+    terms, idx = [], []
+    for i, (sc, o) in enumerate(zip(scs, outs)):
+        if "obs" not in o:
+            run.violation("corr:%s/harness error or panic" % pid, {"correspondence": "harness", "scenario": sc, "out": o}, False)
+            continue
+        obs, k = o["obs"], cands[i][3]
+        fr = sc["faults"][0]["req"]
+        if fr >= len(obs["requests"]) or not obs["requests"][fr].endswith("InjectedFault"):
+            continue   # the request failed on its own (scripted NotFound of the dry-run apply): no fault was injected
+        evs = [dict(e, res="ok" if e["post"] is not None or e["verb"] == "delete" else "notfound") if e.get("fault") == "lost" else e
+               for e in obs["events"] if e.get("fault") != "err"]
+        ons = sc["owner"]["ns"]
+        marked = dict(sc, objects=[dict(p, dryreject=True) if (p["gk"], p["ns"] or ons, p["name"]) == (k["gk"], k["ns"], k["name"]) else p
+                                   for p in sc["objects"]])
+        try:
+            terms.append(pl.c_case(marked, dict(obs, events=evs)))
+            idx.append(i)
+        except pl.Unrepresentable as e:
+            run.violation("corr:%s/observation outside the model's event language: %s" % (pid, e),
+                          {"correspondence": "PhaseCorr event language (dry-run fault stage)", "scenario": sc, "impl": obs}, False)
+    res, logs = vlib.judge_cases(pid + "d", IMPORTS, "judge11f", terms, 2)
+    for l in logs:
+        run.violation("corr:%s/coq-eval" % pid, {"correspondence": "coq evaluation failed", "log": l}, False)
+    n = 0
+    for i, r in zip(idx, res):
+        if r is None:
+            continue
+        n += 1
+        sc, obs = scs[i], outs[i]["obs"]
+        run.classes.add(("dryfault", sc["flavor"], sc["faults"][0]["kind"], obs["res"], len(obs["events"])))
+        if not r[1]:
+            run.violation(identity + " (the dry run of an object failed with an API fault and the pass wrote anyway)", {"scenario": sc, "impl": obs}, True)
+    run.cov["dryrun_fault_stage"] = {"evaluations": n, "judged": "m11f: dry-run request failed => no write in that pass"}
+    run.cov["evaluations"] = run.cov.get("evaluations", 0) + n
 
 
 def teardown_table(tier):
